@@ -213,6 +213,80 @@ def _tie_heavy_task(task, p):
         p.sample(sub, {"n": n, "alphabet": [0, 1, 5], "example": X[X.shape[0] // 3].tolist()})
 
 
+def series_with_score(values_sorted, target_s):
+    """A series with the multiset `values_sorted` (ascending) whose Mann-Kendall score is target_s:
+    start from the sorted arrangement (maximal S) and swap adjacent ascending neighbours; each swap lowers S by 2."""
+    x = list(values_sorted)
+    n = len(x)
+    s = sum((x[j] > x[i]) - (x[j] < x[i]) for i in range(n - 1) for j in range(i + 1, n))
+    i = n - 2
+    while s > target_s:
+        # find an adjacent strictly ascending pair, scanning from the right and wrapping around
+        for _ in range(n):
+            if x[i] < x[i + 1]:
+                break
+            i = i - 1 if i > 0 else n - 2
+        else:
+            return None
+        x[i], x[i + 1] = x[i + 1], x[i]
+        s -= 2
+        i = i - 1 if i > 0 else n - 2
+    return x if s == target_s else None
+
+
+def _threshold_task(task, p):
+    """Decision boundary of the significance flag: for every length and tie structure of a family, the two lattice
+    values of S on either side of p = 0.05 (the smallest significant score and the largest non-significant one)."""
+    n = task
+    st = _st()
+    sub = "threshold"
+    structures = {"no ties": [], "one pair": [2], "two pairs": [2, 2], "one triple": [3], "five triples": [3] * 5,
+                  "half equal": [max(2, n // 2)], "run of 12": [12], "pairs everywhere": [2] * (n // 2)}
+    zc = 1.959963984540054
+    for name, groups in structures.items():
+        if sum(groups) > n:
+            continue
+        vals = []
+        v = 0
+        for g in groups:
+            vals += [v] * g
+            v += 3
+        while len(vals) < n:
+            vals.append(v)
+            v += 3
+        vals.sort()
+        ref_sorted = ref_mk(vals)
+        smax, var = ref_sorted[0], ref_sorted[6]
+        if var == 0:
+            continue
+        # lattice: S = smax, smax-2, ...
+        import math
+        sd = math.sqrt(var)
+        cands = [s_ for s_ in range(smax, -1, -2) if s_ > 0]
+        sig = [s_ for s_ in cands if (s_ - 1) / sd > zc]
+        non = [s_ for s_ in cands if (s_ - 1) / sd <= zc]
+        targets = []
+        if sig:
+            targets.append(min(sig))
+        if non:
+            targets.append(max(non))
+        for tgt in targets:
+            x = series_with_score(vals, tgt)
+            if x is None:
+                continue
+            for sign in (1, -1):
+                xs = np.array(x, dtype=np.int64) * sign
+                ref = ref_mk([int(v_) for v_ in xs])
+                o = [np.asarray(a) for a in st._mann_kendall_trend_gu(xs.astype("int16")[None, :])]
+                compare(xs, (o[0][0], o[1][0], o[2][0], o[3][0]), ref, p, sub, "gu_i16")
+                of = [np.asarray(a) for a in st._mann_kendall_trend_gu_nd(xs.astype("float32")[None, :], -9999.0)]
+                compare(xs, (of[0][0], of[1][0], of[2][0], of[3][0]), ref, p, sub, "gu_nd_f32")
+                p.count(sub, evaluations=2, states=1, traces_validated_against_impl=1, nontrivial=1)
+                p.note_min("min_abs_p_minus_alpha_threshold_family", ref[5])
+    if n == 30:
+        p.sample(sub, {"n": n, "tie_structures": list(structures), "targets": "smallest significant and largest non-significant S"})
+
+
 def accessor(ctx):
     import warnings
     import pandas as pd
@@ -301,6 +375,7 @@ def run(ctx):
         for lo in range(0, tot, 4096):
             ttasks.append((n, lo, min(tot, lo + 4096)))
     ctx.pmap(_tie_heavy_task, ttasks[::-1])
+    ctx.pmap(_threshold_task, list(range(201 if ctx.thorough() else 81, 4, -1)))
     ctx.note("value_map", f"rank * {scale} + {shift}")
     ctx.note("max_points", maxn)
     long_series(ctx)
